@@ -23,6 +23,9 @@ sys.path.insert(0, os.path.join(C.ROOT, "tools"))
 import translate_rng  # noqa: E402
 from cxx2lean import Refuse  # noqa: E402
 
+# the machine is shared: at most VERIF_JOBS (default 4) compile jobs / concurrently running processes
+C.NPROC = max(1, min(C.NPROC, int(os.environ.get("VERIF_JOBS", "4"))))
+
 U64 = (1 << 64) - 1
 CONFIGS = ["mep-std", "mep-alps", "mep-dss", "mep-holdout", "ga-std", "ga-alps", "de"]
 REPEATABLE = {"ga-std", "ga-alps", "de"}     # i_mep dumps contain opcodes, which are numbered by a
@@ -107,8 +110,29 @@ def cfg_token(c):
         "-" if c["sep"] is None or not c["grouping"] else "".join("%02x" % g for g in c["grouping"]))
 
 
+def cfg_parse(tok):
+    f = tok.split(":")
+    sep = None if f[8] == "-" else int(f[8])
+    return {"base": int(f[0]), "showbase": int(f[1]), "upper": int(f[2]), "showpos": int(f[3]), "width": int(f[4]),
+            "fill": int(f[5]), "adjust": int(f[6]), "skipws": int(f[7]), "sep": sep,
+            "grouping": [] if sep is None or f[9] == "-" else list(bytes.fromhex(f[9]))}
+
+
 def cfg_useg(c):
     return c["sep"] is not None and bool(c["grouping"]) and 0 < c["grouping"][0] < 127
+
+
+def cfg_words(c):
+    w = ["dec" if c["base"] == 10 else {16: "hex", 8: "oct", 0: "no basefield"}[c["base"]]]
+    if c["width"]:
+        w.append("width %d fill chr(%d) %s" % (c["width"], c["fill"], ["left", "right", "internal", "no adjustfield"][c["adjust"]]))
+    if not c["skipws"]:
+        w.append("noskipws")
+    if c["sep"] is not None:
+        w.append("numpunct thousands_sep chr(%d) grouping %s" % (c["sep"], c["grouping"]))
+    else:
+        w.append("classic locale")
+    return ", ".join(w)
 
 
 def cfg_gs(c):
@@ -190,9 +214,10 @@ def gen_cfg(rng, kind):
     return c
 
 
-def gen_cfg_lines(rng, tier, meta):
+def gen_cfg_lines(rng, tier, meta=None):
     """round trips under stream configurations the engine does not fix (requests `cfgrt`) and loads of
-    well-formed / damaged texts under such configurations (`cfgload`).  meta[line] = class of the cfg."""
+    well-formed / damaged texts under such configurations (`cfgload`)."""
+    meta = {} if meta is None else meta
     big = tier != "quick"
     L = []
     seeds = ["0", "1", "default", str(U64), "2", "4294967295"] + [str(rng.next()) for _ in range(20)]
@@ -562,7 +587,7 @@ def run(chk, replay=None):
                 chk.violation("replayed whole runs still differ / fail: %s" % runs, r,
                               tags={"kind": "run", "clause": "replay"})
             return chk.finish(level="proof", checker_cmd="(replay of a whole-run finding)", rule="replay")
-    lines = [only_line] if only_line else corpus + gen_lines(rng, chk.tier)
+    lines = [only_line] if only_line else corpus + gen_lines(rng, chk.tier) + gen_cfg_lines(rng, chk.tier)
 
     cpp, deaths = C.run_lines(exe, lines, env={"UBSAN_OPTIONS": "print_stacktrace=0:halt_on_error=0"}, timeout=900)
     died = {}
@@ -601,6 +626,22 @@ def run(chk, replay=None):
                           {"line": ln, "cpp": c}, {"kind": op, "clause": "nondet" if "nondet" in c else "range"}))
         if op == "load":
             chk.count("load:" + c.split()[0])
+        if op == "cfgload":
+            chk.count("cfgload:" + c.split()[0])
+        if op == "cfgrt":
+            cls, v = cfg_class(cfg_parse(ln.split()[6])), c.split()[0]
+            chk.count("cfgrt:%s:%s" % (cls, v))
+            if cls == "demanded" and v != "same":
+                try:
+                    txt = bytes.fromhex(c.split()[-1]).decode("latin1")
+                except ValueError:
+                    txt = c.split()[-1]
+                found.append((len(ln), "`%s`: a state written with operator<< to a stream (configuration %s: %s) and "
+                              "read back with operator>> from the SAME stream does not continue the same sequence "
+                              "(%s; text written: %r; words read back: %s)"
+                              % (ln, ln.split()[6], cfg_words(cfg_parse(ln.split()[6])), v, txt[:120],
+                                 " ".join(c.split()[1:5])),
+                              {"line": ln, "cpp": c}, {"kind": op, "clause": v}))
         # model vs code
         if lean is not None and op != "mixed" and i < len(lean):
             l = lean[i]
